@@ -28,12 +28,19 @@ def literals_of_test(test, label):
     """Literals known to hold after taking edge `label` ('T'/'F') out of `test`.
     T: every conjunct of an `and`; F: the negation of every disjunct of an `or`."""
     out = []
-    if label == "T":
-        for c in flatten_boolop(test, ast.And):
-            out.append((c,) + norm_literal(c, True))
-    elif label == "F":
-        for d in flatten_boolop(test, ast.Or):
-            out.append((d,) + norm_literal(d, False))
+
+    def facts(e, truth):
+        neg, inner = strip_not(e)
+        if neg:
+            truth = not truth
+        if isinstance(inner, ast.BoolOp) and ((isinstance(inner.op, ast.And) and truth) or (isinstance(inner.op, ast.Or) and not truth)):
+            for v in inner.values:       # De Morgan: not (a or b) gives not a, not b; (a and b) gives a, b
+                facts(v, truth)
+        else:
+            out.append((inner,) + norm_literal(inner, truth))
+
+    if label in ("T", "F"):
+        facts(test, label == "T")
     return out
 
 
@@ -343,3 +350,45 @@ def find_pattern(root, src, stmts_only=None):
 
 def has_pattern(root, src):
     return bool(find_pattern(root, src))
+
+
+# ---------------------------------------------------------------------------------------------------------------- NNF
+def nnf(expr, truth=True, leaf=None):
+    """Negation normal form of a boolean expression as a tree: ("and", [t...]) | ("or", [t...]) | ("lit", text, polarity).
+    `not` is pushed through and/or (De Morgan); leaves are normalised by `leaf` (default norm_literal)."""
+    leaf = leaf or norm_literal
+    neg, inner = strip_not(expr)
+    if neg:
+        truth = not truth
+    if isinstance(inner, ast.BoolOp):
+        is_and = isinstance(inner.op, ast.And)
+        kind = "and" if (is_and == truth) else "or"
+        kids = []
+        for v in inner.values:
+            k = nnf(v, truth, leaf)
+            if k[0] == kind:
+                kids.extend(k[1])
+            else:
+                kids.append(k)
+        return (kind, kids)
+    t, p = leaf(inner, truth)
+    return ("lit", t, p)
+
+
+def nnf_mentions(t, name):
+    if t[0] == "lit":
+        import re as _re
+        return bool(_re.search(r"\b" + _re.escape(name) + r"\b", t[1]))
+    return any(nnf_mentions(k, name) for k in t[1])
+
+
+def nnf_lits(t):
+    """set of (text, polarity) of a flat and/or of literals, or of a single literal; None when nested deeper"""
+    if t[0] == "lit":
+        return {(t[1], t[2])}
+    out = set()
+    for k in t[1]:
+        if k[0] != "lit":
+            return None
+        out.add((k[1], k[2]))
+    return out
